@@ -40,6 +40,7 @@ pub fn exec(func: &str, a: &mut Args) -> String {
     if func.starts_with("composite_") { return comp::exec(func, a); }
     if func.starts_with("lane3_") || func.starts_with("nl3_") || func.starts_with("dv3_") { return lanes3::exec(func, a); }
     if func.starts_with("lane2_") || func.starts_with("nl2_") || func.starts_with("dv2_") { return lanes2::exec(func, a); }
+    if func.starts_with("hf2_") { return hf2::exec(func, a); }
     match func {
         "bf_point" => {
             let (q, cur, _) = c08::replay_cur(a, false);
@@ -79,6 +80,7 @@ pub fn gen(r: &mut Rng, thorough: bool) -> Vec<(String, String)> {
     v.extend(comp::gen_pairs(r, thorough));
     v.extend(lanes3::gen_dv(r, thorough));
     v.extend(lanes2::gen_dv(r, thorough));
+    v.extend(hf2::gen(r, thorough));
     v
 }
 
@@ -1461,6 +1463,82 @@ pub mod lanes2 {
             // the rotation part of `Isometry::new(linvel * t, angvel * t)` (the exponential map is not modelled) travels with the case
             let mm = Isometry::new(m.linvel * t, m.angvel * t);
             v.push(("nl2_pos".into(), format!("{} {} {}", hmotion(&m), hx(t), format!("{} {}", hx(mm.rotation.re), hx(mm.rotation.im)))));
+        }
+        v
+    }
+}
+
+/// the grid lookups of the 2-D heightfield (`hf2_*`): the real `HeightField::{cell_at_point,
+/// unclamped_elements_range_in_local_aabb, map_elements_in_local_aabb}`; wire format of a heightfield:
+/// `n h_0 … h_{n-1} s_0 … s_{n-2} scale.x scale.y` (`s_i = 1`: cell `i` present)
+pub mod hf2 {
+    use crate::util::*;
+    use crate::p2::bounding_volume::Aabb;
+    use crate::p2::na::DVector;
+    use crate::p2::shape::HeightField;
+    use d2::{Point, Vector};
+
+    pub struct H { pub hs: Vec<f64>, pub st: Vec<bool>, pub sc: Vector<f64> }
+    pub fn h(a: &mut Args) -> H { let n = a.u(); let hs = (0..n).map(|_| a.f()).collect(); let st = (0..n - 1).map(|_| a.u() != 0).collect(); H { hs, st, sc: d2::v(a) } }
+    pub fn hh(x: &H) -> String { format!("{} {} {} {}", x.hs.len(), hxs(x.hs.iter()), x.st.iter().map(|s| if *s { "1" } else { "0" }).collect::<Vec<_>>().join(" "), d2::hv(&x.sc)) }
+    pub fn build(x: &H) -> HeightField {
+        let mut f = HeightField::new(DVector::from_vec(x.hs.clone()), x.sc);
+        for (i, s) in x.st.iter().enumerate() { if !*s { f.set_segment_removed(i, true); } }
+        f
+    }
+    pub fn exec(func: &str, a: &mut Args) -> String {
+        match func {
+            "hf2_cell" => { let x = h(a); let f = build(&x); let p = d2::p(a);
+                match f.cell_at_point(&p) { None => "none".into(), Some(i) => format!("some {}", i) } }
+            "hf2_range" => { let x = h(a); let f = build(&x); let b = Aabb::new(d2::p(a), d2::p(a));
+                let r = f.unclamped_elements_range_in_local_aabb(&b); format!("{} {}", r.start, r.end) }
+            "hf2_elems" => { let x = h(a); let f = build(&x); let b = Aabb::new(d2::p(a), d2::p(a));
+                let mut ids = Vec::new(); f.map_elements_in_local_aabb(&b, &mut |i, _| ids.push(i.to_string()));
+                format!("ids {}", ids.join(" ")).trim_end().to_string() }
+            _ => "nofn".into(),
+        }
+    }
+    pub fn gen_h(r: &mut Rng, lat: bool) -> H {
+        let n = *r.pick(&[2usize, 2, 3, 4, 5, 6, 8, 9, 11, 17, 34]);
+        let zig = r.below(3) == 0;
+        let hs: Vec<f64> = (0..n).map(|i| if zig { if i % 2 == 0 { 0.0 } else { *r.pick(&[1.0, -1.0, 0.5]) } } else if lat { *r.pick(&[0.0, 0.25, 0.5, 1.0, -0.5, 2.0]) } else { r.uniform(-2.0, 2.0) }).collect();
+        let st = (0..n - 1).map(|_| r.below(6) != 0).collect();
+        let sx = if lat { *r.pick(&[1.0, 2.0, 4.0, 0.5, 3.0, 10.0, 7.0]) } else { *r.pick(&[0.01, 0.37, 1.3, 17.0, 100.0]) * r.uniform(1.0, 1.5).min(100.0 / 1.5) };
+        let sy = if lat { *r.pick(&[1.0, 2.0, 0.5]) } else { r.uniform(0.05, 5.0) };
+        H { hs, st, sc: Vector::new(sx.min(100.0), sy) }
+    }
+    /// an abscissa on / next to a cell boundary (computed as the code computes vertex abscissae, or exactly), on the
+    /// border, outside, anywhere
+    fn gen_x(r: &mut Rng, x: &H, f: &HeightField) -> f64 {
+        let n = x.hs.len() - 1; let i = r.below(n as u64 + 1) as f64;
+        let vx = f.start_x() + f.cell_width() * i;
+        let ex = x.sc.x * (-0.5 + i / n as f64);
+        match r.below(8) {
+            0 => vx, 1 => ex, 2 => if vx == 0.0 { 1.0e-300 } else { f64::from_bits(vx.to_bits() + 1) }, 3 => if vx == 0.0 { -1.0e-300 } else { f64::from_bits(vx.to_bits() - 1) },
+            4 => vx + *r.pick(&[0.25, -0.25, 0.001]) * f.cell_width(),
+            5 => *r.pick(&[-0.5, 0.5, -0.75, 0.75, -10.0, 10.0]) * x.sc.x,
+            6 => r.uniform(-0.7, 0.7) * x.sc.x,
+            _ => vx + 0.5 * f.cell_width(),
+        }
+    }
+    pub fn gen(r: &mut Rng, thorough: bool) -> Vec<(String, String)> {
+        let mut v = Vec::new();
+        let n = if thorough { 4000 } else { 500 };
+        for it in 0..n {
+            let lat = it % 2 == 0;
+            let x = gen_h(r, lat); let f = build(&x); let s = hh(&x);
+            let p = Point::new(gen_x(r, &x, &f), *r.pick(&[0.0, 1.0, -3.0]));
+            v.push(("hf2_cell".into(), format!("{} {}", s, d2::hp(&p))));
+            // boxes: edges on cell boundaries, zero width, spanning everything, outside, touching the border; ordinates above /
+            // below / touching the heights of the cells
+            let (mut x0, mut x1) = (gen_x(r, &x, &f), gen_x(r, &x, &f));
+            if r.below(8) == 0 { x1 = x0; }
+            if x0 > x1 { std::mem::swap(&mut x0, &mut x1); }
+            let hy = x.hs[r.below(x.hs.len() as u64) as usize] * x.sc.y;
+            let (y0, y1) = match r.below(5) { 0 => (hy, hy + 1.0), 1 => (hy - 1.0, hy), 2 => (-100.0, 100.0), 3 => (hy + 0.25, hy + 0.5), _ => { let a = r.uniform(-3.0, 3.0); (a, a + r.uniform(0.0, 2.0)) } };
+            let b = format!("{} {} {} {}", hx(x0), hx(y0), hx(x1), hx(y1));
+            v.push(("hf2_range".into(), format!("{} {}", s, b)));
+            v.push(("hf2_elems".into(), format!("{} {}", s, b)));
         }
         v
     }
